@@ -156,7 +156,7 @@ def body(ctx, q):
     if not (rounds and saves and valids):
         ctx.broken("generator produced no cases of some kind: %d round, %d save, %d valid" % (len(rounds), len(saves), len(valids)))
         return
-    valids = pick_valid(ctx, valids, 16 if q else 120)
+    valids = pick_valid(ctx, valids, 16 if q else 64)
     nt_round = lambda c: (not c["exp"]["skip"]) and (len(c["exp"]["p2"]["dials"]) >= 1 or len(c["exp"]["p1"]["dials"]) >= 2)
     nt_save = lambda c: c["exp"]["save"] and len(c["exp"]["tail"]) >= 1
     for name, cases, nt, to in (("round", rounds, nt_round, 3600), ("save", saves, nt_save, 1800), ("valid", valids, None, 3600)):
